@@ -51,6 +51,8 @@ def run(ctx, fname, cells, common=None, chunk=None, name=None, case_of=None):
         batch = cells[start : start + B]
         res = ctx.pmap(fname, batch, common=common, chunk=chunk)
         for cell, rr in zip(batch, res):
+            if isinstance(rr, dict) and rr.get("__crash__"):
+                rr = [bad(core.problem("worker process died (segfault/abort in compiled code?) while evaluating %s cell %r" % (name or fname, cell), root="worker-crash", fn=fname))]
             if isinstance(rr, dict):
                 rr = [rr]
             ctx.states += 1
